@@ -986,10 +986,25 @@ func (c *fnCtx) binop(st *State, op token.Token, x, y SymVal, t types.Type, pos 
 			r := c.define("cat", "Str", app("sconcat", x.S, y.S))
 			c.assume(st, app("=", app("slen", r), app("+", app("slen", x.S), app("slen", y.S))))
 			return SymVal{K: KStr, T: t, S: r}
-		case token.EQL:
-			return mkBool(sEq(x.S, y.S))
-		case token.NEQ:
-			return mkBool(sNot(sEq(x.S, y.S)))
+		case token.EQL, token.NEQ:
+			// comparison with the empty string is a test of the length (the empty string is unique);
+			// equal strings have equal lengths
+			emp := c.strlits[""]
+			var r string
+			if emp != "" && (x.S == emp || y.S == emp) {
+				o := x.S
+				if o == emp {
+					o = y.S
+				}
+				r = app("=", app("slen", o), "0")
+			} else {
+				r = sEq(x.S, y.S)
+				c.assume(st, sImp(r, app("=", app("slen", x.S), app("slen", y.S))))
+			}
+			if op == token.NEQ {
+				r = sNot(r)
+			}
+			return mkBool(r)
 		default:
 			n := c.fresh("strcmp")
 			c.declare(n, "Bool")
